@@ -170,6 +170,25 @@ def run(ctx):
         got = sorted((short(c.res), K.arg_renders(c)[1:]) for c in rl.calls() if (c.res or "").startswith(BR))
         ctx.ob("R-REG", "Reader::reset_and_limit", got == [("BufReadCounter::limit", ["limit"]), ("BufReadCounter::reset", [])],
                "reset_and_limit zeroes the counter and installs the given limit", where=rl.loc, detail=got)
+    K.check_attr_values_unescaped(ctx, f)
+    K.check_text_impls_escape(ctx, f)
+    # the root element of the three RRDP documents is read under one and the same (header) limit
+    roots_ = {}
+    elems = {}
+    for n, b in sorted(f.bodies.items()):
+        if not n.startswith("rrdp::"):
+            continue
+        for c in b.calls():
+            if b.is_cleanup(c.bb) or not (c.name or "").endswith("_with_limit"):
+                continue
+            lim = K.arg_renders(c)[-1]
+            (roots_ if c.name == "start_with_limit" else elems).setdefault(short(root_fn(f, n)), []).append(lim)
+    vals = {v for vs in roots_.values() for v in vs}
+    okr = len(roots_) >= 3 and len(vals) == 1 and all(v.isdigit() for v in vals) and \
+        all(int(next(iter(vals))) <= int(e) for es in elems.values() for e in es if e.isdigit())
+    ctx.ob("R-SIB", "rrdp:root-element-limit-agrees", okr,
+           "notification, snapshot and delta parsers read their root element under the same byte limit, which is not larger than "
+           "any per-element limit", detail={"root": roots_, "elements": elems})
     # who may zero the counter: only reset_and_limit, and never from inside a loop of the event pullers (a reset per
     # skipped comment / declaration would make the limit per event instead of per element)
     cs = calls_to(f, lambda c: c.res in ("%s::<R>::reset" % BR, "%s::<R>::limit" % BR))
